@@ -1,5 +1,6 @@
 (* Properties/C13.v — power method (tree after repairs 5612f82 and 734f679).
-   Statements only; every proof is `exact` of a lemma of Proofs/Power.v.
+   Statements only; every proof is `exact` of a lemma of Proofs/Power.v, Proofs/PowerStop.v or
+   (float level, END of file: c13_float_normalised) Proofs/PowerFloat.v.
    Vocabulary (Proofs/Power.v): [shaped h w a] = a is an h x w array whose buffer
    has h*w entries; [rect h w rows] = h rows of length w; [rsum n f] = sum_{k<n} f k;
    [rayleigh n A v] = v^T (A v) / v^T v; [pm_state A k] (Model/Power.v) = the pair
@@ -56,7 +57,9 @@ Local Open Scope R_scope.
    min w < 0).  [In R, x / 0 = 0: for w = 0 the model returns the zero vector.]
    lam is the Rayleigh quotient of v.  NOTE the largest SIGNED component is 1,
    not the largest-magnitude one (DESIGN's wording): the repaired code and its
-   test expect [1, -1.414, 1]. *)
+   test expect [1, -1.414, 1].  For the executed binary64 instance the same normalisation holds
+   EXACTLY (some entry is the float 1.0, every entry <= 1) when the returned entries are finite:
+   c13_float_normalised at the END of this file. *)
 Theorem c13_shape_norm : forall (rows : list (list R)) (es lam : R) (v : arr R),
   power_method rows es = Ok (lam, v) ->
   exists (n : nat) (A x : arr R) (prev ea : R),
@@ -612,3 +615,51 @@ Example c13_residual_pm_nonvacuous : exists ev v, power_method [[2]] (1 / 2) = O
   rsum 1 (fun i => (mvf 1 (aget (mk_arr 1 1 [2])) (fun i => aget v i 0) i - ev * aget v i 0) ^ 2) <
   (1 + 0) * (1 / 2) * 2 ^ 2 * rsum 1 (fun i => aget v i 0 ^ 2).
 Proof. exact Proofs.PowerStop.residual_pm_example. Qed.
+
+(* ---- the executed binary64 instance: the normalisation is EXACT (Proofs/PowerFloat.v) ------
+   For [FNum] (IEEE binary64, round to nearest even; Flocq's reading [Prim2B]): on Ok (lam, v) the
+   input is n x n, n >= 1, v is n x 1, and IF every entry of the returned v is finite (no NaN, no
+   infinity) THEN some entry of v is exactly the float 1.0 and every entry is <= 1 as a real number:
+   "largest component 1" holds exactly, not up to rounding.  The hypothesis is on the returned
+   vector only; it implies that the scaling component s of the last loop body (an entry y_k of the
+   un-normalised vector y = A x, whatever the comparisons do on NaN) is finite and non-zero
+   (v_k = fl(s / s) is NaN for s = 0, inf, NaN) and that every y_i is finite (v_i = fl(y_i / s)), so
+   the max/min folds compute the real maximum/minimum, fl(s / s) = 1.0, and fl(y_i / s) <= 1 because
+   y_i / s <= 1 (s = max > 0, or max <= 0 and s = min < 0), rounding is monotone and 1 is a float.
+   Without the hypothesis nothing is claimed: y = 0 gives v = NaN everywhere (and then the exit test
+   fails, cf. c13_cap), an overflow in A x gives NaN/inf entries.  The largest SIGNED component is 1
+   (see c13_shape_norm), and nothing is said here about lam or about lower bounds on the entries. *)
+From Flocq Require Import Core BinarySingleNaN PrimFloat.
+From SV Require Import Proofs.PowerFloat.
+
+Theorem c13_float_normalised :
+  forall (rows : list (list PrimFloat.float)) (es lam : PrimFloat.float) (v : arr PrimFloat.float),
+  @power_method PrimFloat.float FNum rows es = Ok (lam, v) ->
+  exists n : nat, (1 <= n)%nat /\ rect n n rows /\ shaped n 1 v /\
+    ((forall i, (i < n)%nat -> is_finite (Prim2B (aget v i 0)) = true) ->
+     (exists i, (i < n)%nat /\ aget v i 0 = PrimFloat.one) /\
+     (forall i, (i < n)%nat -> B2R (Prim2B (aget v i 0)) <= 1)).
+Proof. exact Proofs.PowerFloat.power_method_float_normalised. Qed.
+Check c13_float_normalised :
+  forall (rows : list (list PrimFloat.float)) (es lam : PrimFloat.float) (v : arr PrimFloat.float),
+  @power_method PrimFloat.float FNum rows es = Ok (lam, v) ->
+  exists n : nat, (1 <= n)%nat /\ rect n n rows /\ shaped n 1 v /\
+    ((forall i, (i < n)%nat -> is_finite (Prim2B (aget v i 0)) = true) ->
+     (exists i, (i < n)%nat /\ aget v i 0 = PrimFloat.one) /\
+     (forall i, (i < n)%nat -> B2R (Prim2B (aget v i 0)) <= 1)).
+Print Assumptions c13_float_normalised.
+
+(* non-vacuity, computed: [[2, 1], [1, 3]] with tolerance 1e-6 (0x1.0c6f7a0b5ed8dp-20) returns Ok, both
+   entries of the returned vector are finite (hypothesis), and -- by running the model, independently
+   of the theorem -- entry 1 is the float 1.0 *)
+Example c13_float_normalised_nonvacuous : exists lam v,
+  @power_method PrimFloat.float FNum [[2; 1]; [1; 3]]%float 0x1.0c6f7a0b5ed8dp-20%float = Ok (lam, v) /\
+  shaped 2 1 v /\
+  (forall i, (i < 2)%nat -> is_finite (Prim2B (aget v i 0)) = true) /\
+  aget v 1 0 = PrimFloat.one.
+Proof.
+  eexists _, _. split; [vm_compute; reflexivity|].
+  split; [repeat split|].
+  split; [|vm_compute; reflexivity].
+  intros i Hi. destruct i as [|[|i]]; [| |lia]; rewrite <- is_finite_equiv; vm_compute; reflexivity.
+Qed.
